@@ -95,6 +95,29 @@ Theorem C12_events_fire_exactly_when_due_along_every_run :
 Proof. intros sigma i fuel x0 joker0 ta r m a r' m' lg Hnn. apply (run_due_ok sigma i Hnn); auto. Qed.
 Print Assumptions C12_events_fire_exactly_when_due_along_every_run.
 
+(* "it advances only when nothing is left to decide or the agent has declined everything, and then exactly to the earliest pending completion or
+   arrival (or by one unit if nothing is pending)": the two time machines the middleware uses, read off their definitions *)
+Theorem C12_time_advances_only_when_nothing_is_left_to_decide :
+  forall i x t, jump_to_event i x = Ok t -> t <> s_now x -> get_num_possible_events i x = Ok 0%nat.
+Proof.
+  intros i x t H Hne. unfold jump_to_event in H. destruct (get_num_possible_events i x) as [n|]; simpl in H; [|discriminate].
+  destruct n as [|n]; [reflexivity|]. simpl in H. inversion H. congruence.
+Qed.
+Print Assumptions C12_time_advances_only_when_nothing_is_left_to_decide.
+
+Theorem C12_forced_jump_goes_exactly_to_the_earliest_pending_event :
+  forall x t, force_jump_to_event x = Ok t ->
+    exists p, pending_times x = Ok p /\
+      ((p = [] /\ t = (s_now x + 1)%Z) \/ (In t p /\ forall z, In z p -> (t <= z)%Z)).
+Proof.
+  intros x t H. unfold force_jump_to_event in H. destruct (pending_times x) as [p|]; simpl in H; [|discriminate].
+  exists p. split; [reflexivity|]. destruct p as [|h r]; inversion H; [left; auto|right].
+  unfold zmin_list. destruct (fold_min_le r h) as [A B]. split.
+  - destruct (fold_min_in r h) as [E|E]; [rewrite E; left; reflexivity|right; exact E].
+  - intros z [<-|Hz]; [exact A|apply B; exact Hz].
+Qed.
+Print Assumptions C12_forced_jump_goes_exactly_to_the_earliest_pending_event.
+
 (* ---------- translation invariance, the positive half ---------- *)
 (* For instances WITHOUT outage definitions (with them it is false: C12_shift_refuted) the whole stack commutes with shifting every time
    stamp by K - for every oracle (stochastic times included: draws do not depend on the clock), every fuel, every state, every action.
